@@ -133,6 +133,15 @@ def strategies():
         return st.sampled_from([v, ["np", v]])
     stor = st.sampled_from(["RAM", "DISK", "WORK", "NONE"])
     src = st.sampled_from(["RAM", "DISK"])
+    # step indices far from the small range: what an online schedule emits when it is advanced k times
+    # before finalisation (k * sys.maxsize), neighbours of powers of two / ten, and integers whose
+    # decimal text contains the text of sys.maxsize (repr() is a text-level round trip)
+    M = sys.maxsize
+    big = st.one_of(
+        st.builds(lambda k, off: k * M + off, st.integers(1, 24), st.integers(-2, 2)),
+        st.builds(lambda d, tail: int(str(M) + str(d)) if tail else int(str(d + 1) + str(M)), st.integers(0, 99), st.booleans()),
+        st.sampled_from([2 ** 31, 2 ** 32, 2 ** 53, 2 ** 63, 2 ** 64, 10 ** 18, 10 ** 19, 10 ** 20]).flatmap(lambda v: st.integers(v - 2, v + 2)),
+        st.integers(2 ** 40, 2 ** 90))
 
     @st.composite
     def fwd(draw):
@@ -144,6 +153,9 @@ def strategies():
         elif mode == 1 and n0 == 0:
             n1 = ["max", 0]
             a0 = 0
+        elif mode == 2:
+            n1 = draw(big)
+            a0 = n1 - draw(st.integers(1, 9))
         else:
             n1 = draw(intval(n0 + draw(st.integers(1, 9))))
             a0 = draw(intval(n0))
@@ -155,10 +167,15 @@ def strategies():
     def rev(draw):
         n0 = draw(small)
         n1 = n0 + draw(st.integers(1, 9))
+        if draw(st.integers(0, 9)) == 0:
+            n1 = draw(big)
+            return ["R", n1, n1 - draw(st.integers(1, 9)), draw(st.booleans())]
         return ["R", draw(intval(n1)), draw(intval(n0)), draw(st.booleans())]
 
     @st.composite
     def cpmv(draw):
+        if draw(st.integers(0, 9)) == 0:
+            return [draw(st.sampled_from(["C", "M"])), draw(big), draw(src), draw(stor)]
         return [draw(st.sampled_from(["C", "M"])), draw(intval(draw(small))), draw(src), draw(stor)]
     anyact = st.one_of(fwd(), rev(), cpmv(), st.sampled_from([["EF"], ["ER"]]))
 
@@ -297,9 +314,11 @@ def _late(job):
 def late_jobs(tier):
     N = 5 if tier == "quick" else 9
     for n in range(1, N + 1):
-        for k in (1, 2, 3):
+        for k in (1, 2, 3, 9, 10, 11, 19):
             yield ({"cls": "None", "n": n, "passes": 0}, k)
             yield ({"cls": "SingleMemory", "n": n, "passes": 1}, k)
+            if k > 3:
+                continue
             yield ({"cls": "SingleDisk", "move": False, "n": n, "passes": 1}, k)
             yield ({"cls": "SingleDisk", "move": True, "n": n, "passes": 1}, k)
             for p in (1, 2, 3):
